@@ -4,10 +4,21 @@
   Property theorems only (model: AHP/Model/Format.lean; lemmas: AHP/Lemmas/Format.lean, Squeeze.lean).
   Quantification as in C11: every token sequence, every configuration; hypothesis: no element is named like the
   invisible wrapper.
+
+  Text level (through the character-level lexer `lexStrict` of C01 and the lexer bridge of C11,
+  `Lemmas/FormatLex*.lean`; new lemmas in `Lemmas/FormatLexPretty.lean`, `Lemmas/FormatLexPrettyLayout.lean`):
+  `mini_output_fixed_point_text` (mini² = mini), `pretty_text_stable` (pretty³ = pretty²), `pretty_text_layout` (the
+  layout law read off the output text), for every strict single-root document.
 -/
 import AHP.Lemmas.Format
+import AHP.Lemmas.FormatLexPrettyLayout
 namespace AHP.C12
 open AHP AHP.Fmt
+-- the lexer's side (namespace `AHP`) has declarations with the same short names as the formatter model
+-- (`AHP.Fmt`); inside this file the short names keep meaning the formatter model's (as in Props/C11.lean)
+export AHP.Fmt (Frame Node binaryAttrs boolString collapseSpaces dictDel dictSet docHTML endTag handleEnd
+  handleStart isAlnum isAlpha isVoid renderAttr run startTag step styleStr styleToDict toNodeL validAttrName
+  voidTags wrapToks)
 
 /-! #### C12a — indentation -/
 
@@ -195,20 +206,230 @@ theorem getIndent_isIndent (cfg : Cfg) (hm : cfg.mini = false) (hu : ∀ c ∈ c
     · exact hu c hc
     · exact ih c hc
 
+/-! #### C12b/C12d at text level — through the real pipeline text → `lexStrict` → formatter → text -/
+
+/-- **C12c/C12b on text: mini² = mini.**  Mini class (normal or slim elements), any doctype, any strict single-root
+    document `u` — any size and depth — without adjacent data blocks (`Glued`) and without the reserved name: feed the
+    formatter the tokens of `u`; its output text lexes (`lexStrict`), and feeding the formatter those tokens gives the
+    identical text.  (`AHP.Fmt.mini_text_fixed_point`; also stated as `C11.mini_output_is_fixed_point_text`.  With
+    adjacent data blocks it fails: `mini_dropped_markup_counterexample`, the known finding.) -/
+theorem mini_output_fixed_point_text (cfg : Cfg) (hm : cfg.mini = true) (hi : IndentWS cfg) (dt : Option Str)
+    (hdt : DtOK dt) (n : Str) (st : AStore) (sc : Bool) (kids : List FNode)
+    (hs : (FNode.elem n st sc kids).Strict) (hg : (FNode.elem n st sc kids).Glued)
+    (hnw : (FNode.elem n st sc kids).NoWrapper) :
+    ∃ out toks2, format cfg (strictToks dt (.elem n st sc kids)) = .ok out ∧ lexStrict out = some toks2 ∧
+      format cfg (toks2.map Tok.ofToken) = .ok out :=
+  mini_text_fixed_point cfg hm hi dt hdt n st sc kids hs hg hnw
+
+/-- **C12d on text: pretty³ = pretty².**  Pretty class — normal or slim element class, `cfg.mini = false`, indent unit
+    made of spaces/tabs (`IndentWS`) —, any doctype (`DtOK`), any strict single-root document `u` (`FNode.Strict`; any
+    size, any depth) without the reserved name.  Pass 1: the formatter fed the tokens of `u` writes `out1`; the strict
+    lexer reads `out1` back as `toks2`; pass 2: the formatter fed `toks2` writes `out2`; the lexer reads `out2` back as
+    `toks3`; pass 3: the formatter fed `toks3` writes **`out2` again**.
+
+    Unlike the mini case **no `Glued` hypothesis is needed**: whatever adjacent data blocks the input has, pass 1's
+    output re-tokenises without adjacent data blocks, every data block that precedes a tag written with an `_indent` `I`
+    has the form `d ++ I`, pass 2 makes it `sq (d ++ I) ++ I`, and pass 3 `sq (sq (d ++ I) ++ I) ++ I`, the same by
+    `indent_piece_stable`; data blocks before a reference or comment are fixed by `squeeze_idempotent`; below pre/code
+    nothing is rewritten; script/style content ends with the `_indent` after pass 1 and `getEndTag` then adds nothing.
+    What *is* needed is the blank indent unit: `stability_needs_blank_indent_unit`.  Pass 2 = pass 1 does not hold:
+    `second_pass_differs_from_first`. -/
+theorem pretty_text_stable (cfg : Cfg) (hm : cfg.mini = false) (hi : IndentWS cfg) (dt : Option Str)
+    (hdt : DtOK dt) (n : Str) (st : AStore) (sc : Bool) (kids : List FNode)
+    (hs : (FNode.elem n st sc kids).Strict) (hnw : (FNode.elem n st sc kids).NoWrapper) :
+    ∃ out1 toks2 out2 toks3 out3,
+      format cfg (strictToks dt (.elem n st sc kids)) = .ok out1 ∧ lexStrict out1 = some toks2 ∧
+      format cfg (toks2.map Tok.ofToken) = .ok out2 ∧ lexStrict out2 = some toks3 ∧
+      format cfg (toks3.map Tok.ofToken) = .ok out3 ∧ out3 = out2 := by
+  obtain ⟨out1, toks2, out2, toks3, h1, h2, h3, h4, h5⟩ :=
+    pretty_text_stable_core cfg hm hi dt hdt n st sc kids hs hnw
+  exact ⟨out1, toks2, out2, toks3, out2, h1, h2, h3, h4, h5, rfl⟩
+
+/-- the two shipped pretty classes with an indent argument made of spaces/tabs (the default, an integer, or such a
+    string) meet the hypotheses `cfg.mini = false` and `IndentWS cfg` of `pretty_text_stable` / `pretty_text_layout` -/
+theorem pretty_classes_cfg (ind : IndentArg) (ssc : Bool)
+    (hind : ∀ s, ind = .str s → ∀ c ∈ s, c = ' ' ∨ c = '\t') :
+    (mkCfg .pretty ind ssc).mini = false ∧ IndentWS (mkCfg .pretty ind ssc)
+    ∧ (mkCfg .slim ind ssc).mini = false ∧ IndentWS (mkCfg .slim ind ssc) := by
+  cases ind with
+  | dflt =>
+    have h2 : ∀ c ∈ str "  ", c = ' ' ∨ c = '\t' := by decide
+    have h4 : ∀ c ∈ str "    ", c = ' ' ∨ c = '\t' := by decide
+    exact ⟨rfl, h2, rfl, h4⟩
+  | str s => exact ⟨rfl, hind s rfl, rfl, hind s rfl⟩
+  | int i =>
+    have : ∀ c ∈ List.replicate i.toNat ' ', c = ' ' ∨ c = '\t' := by
+      intro c hc
+      exact Or.inl (List.eq_of_mem_replicate hc)
+    exact ⟨rfl, this, rfl, this⟩
+
+/-- **Why "from the second pass on".**  Pass 1 sees the document's own data pieces, pass 2 sees them glued to the
+    `_indent` pass 1 wrote after them: `<div>a<p></p></div>` → `a` + LF + 2 spaces + `<p >` → the piece `a\n  ` is
+    squeezed to `a ` and the indent written again: the second output differs from the first (a space before the line
+    break), the third equals the second (`pretty_text_stable`). -/
+theorem second_pass_differs_from_first :
+    okIs (format (mkCfg .pretty (.str (str "  ")) false)
+      (strictToks none (.elem (str "div") {} false [.tok (.data (str "a")), .elem (str "p") {} false []])))
+      "\n<div >a\n  <p >\n  </p>\n</div>" = true
+    ∧ lexStrict (str "\n<div >a\n  <p >\n  </p>\n</div>")
+        = some [.data (str "\n"), .start (str "div") [], .data (str "a\n  "), .start (str "p") [],
+                .data (str "\n  "), .end_ (str "p"), .data (str "\n"), .end_ (str "div")]
+    ∧ okIs (format (mkCfg .pretty (.str (str "  ")) false)
+        ([Token.data (str "\n"), .start (str "div") [], .data (str "a\n  "), .start (str "p") [],
+          .data (str "\n  "), .end_ (str "p"), .data (str "\n"), .end_ (str "div")].map Tok.ofToken))
+        "\n<div >a \n  <p > \n  </p>\n</div>" = true := by decide
+
+/-- **The hypothesis `IndentWS` is needed.**  With an indent unit that is not white space (`indent = "x"`) every pass
+    adds a copy of the indent to the text in front of each tag, for ever: the same document, passes 1, 2, 3 (each fed
+    the tokens `lexStrict` reads from the previous output). -/
+theorem stability_needs_blank_indent_unit :
+    okIs (format ⟨.normal, str "x", false⟩
+      (strictToks none (.elem (str "div") {} false [.tok (.data (str "a")), .elem (str "p") {} false []])))
+      "\n<div >a\nx<p >\nx</p>\n</div>" = true
+    ∧ lexStrict (str "\n<div >a\nx<p >\nx</p>\n</div>")
+        = some [.data (str "\n"), .start (str "div") [], .data (str "a\nx"), .start (str "p") [],
+                .data (str "\nx"), .end_ (str "p"), .data (str "\n"), .end_ (str "div")]
+    ∧ okIs (format ⟨.normal, str "x", false⟩
+        ([Token.data (str "\n"), .start (str "div") [], .data (str "a\nx"), .start (str "p") [],
+          .data (str "\nx"), .end_ (str "p"), .data (str "\n"), .end_ (str "div")].map Tok.ofToken))
+        "\n<div >a\nx\nx<p >x\nx</p>\n</div>" = true
+    ∧ lexStrict (str "\n<div >a\nx\nx<p >x\nx</p>\n</div>")
+        = some [.data (str "\n"), .start (str "div") [], .data (str "a\nx\nx"), .start (str "p") [],
+                .data (str "x\nx"), .end_ (str "p"), .data (str "\n"), .end_ (str "div")]
+    ∧ okIs (format ⟨.normal, str "x", false⟩
+        ([Token.data (str "\n"), .start (str "div") [], .data (str "a\nx\nx"), .start (str "p") [],
+          .data (str "x\nx"), .end_ (str "p"), .data (str "\n"), .end_ (str "div")].map Tok.ofToken))
+        "\n<div >a\nx\nx\nx<p >x\nx\nx</p>\n</div>" = true := by decide
+
+/-! #### C12a at text level — the layout law read off the output text -/
+
+/-- **C12a on the output text.**  Pretty class (normal or slim elements, indent unit of spaces/tabs), any token
+    sequence `toks` that the plain parser builds into a strict single-root document `u` without the reserved name
+    (doctype `dt`).  The output text `out` lexes (`lexStrict out = some toks2`), is the rendering of `toks2`
+    (`renderToksY`, start tags in the class's style), the tags of `toks2` are balanced (`tagStack [] toks2 = []`, every
+    end tag closes the innermost open element), and for **every position**: split `toks2 = pre ++ t :: post`, so that
+    `out = before ++ (text of t) ++ …` with `before = renderToksY … pre` the text in front of the tag, and let
+    `open_ = tagStack [] pre` be the names of the elements open at that point, recomputed from the tokens `pre` alone
+    (a start tag pushes, an end tag pops).  Then
+
+    * `t` a start tag or a self-closing tag, no pre/code element open: `before` ends with a line break followed by
+      exactly `open_.length` copies of the indent unit — the tag is the first thing on its own line, indented by
+      depth × indent;
+    * `t` the end tag `</n>`: `n` is the innermost open element; and if `n` is not pre/code and no pre/code element
+      encloses it, `before` ends with a line break followed by exactly `(depth of that element)` copies of the unit —
+      the end tag is on its own line at the indentation of its start tag.  No exception is needed for script/style:
+      `getEndTag` omits the indent only when the content already ends with it.
+
+    (`layout_reads_as_line`: since the unit has no line break, "ends with LF + d units" = "the last line of `before` is
+    exactly d units".)  `pretty_text_layout` is the instance for the tokens of a strict document,
+    `pretty_text_layout_second_pass` the one for the re-tokenised output of pass 1. -/
+theorem pretty_text_layout_tokens (cfg : Cfg) (hm : cfg.mini = false) (hi : IndentWS cfg) (dt : Option Str)
+    (hdt : DtOK dt) (n : Str) (st : AStore) (sc : Bool) (kids : List FNode)
+    (hs : (FNode.elem n st sc kids).Strict) (hnw : (FNode.elem n st sc kids).NoWrapper)
+    (toks : List Tok) (hnws : NoWrapperStart toks)
+    (hp : Plain.feed toks = .ok ⟨[], some (FNode.elem n st sc kids).toNode, dt, 0, 0⟩) :
+    ∃ out toks2, format cfg toks = .ok out ∧ lexStrict out = some toks2 ∧ tagStack [] toks2 = [] ∧
+      ∀ pre t post, toks2 = pre ++ t :: post →
+        out = renderToksY (styleOf cfg.kind) pre ++ renderTokY (styleOf cfg.kind) t
+                ++ renderToksY (styleOf cfg.kind) post
+        ∧ (∀ m a, t = .start m a ∨ t = .startend m a → noPre (tagStack [] pre) = true →
+            ∃ x, renderToksY (styleOf cfg.kind) pre = x ++ '\n' :: rep (tagStack [] pre).length cfg.indent)
+        ∧ (∀ m, t = .end_ m → (tagStack [] pre).head? = some m ∧
+            (isPre m = false → noPre (tagStack [] pre).tail = true →
+              ∃ x, renderToksY (styleOf cfg.kind) pre = x ++ '\n' :: rep ((tagStack [] pre).length - 1) cfg.indent)) := by
+  obtain ⟨out, toks2, h1, h2, h3, h4⟩ := pretty_layout_core cfg hm hi dt hdt n st sc kids hs hnw toks hnws hp
+  refine ⟨out, toks2, h1, h2, scan_balanced _ _ _ _ _ h4, ?_⟩
+  intro pre t post hsplit
+  have hat := scan_split (styleOf cfg.kind) cfg.indent pre [] [] t post (hsplit ▸ h4)
+  simp only [List.nil_append] at hat
+  refine ⟨?_, ?_, ?_⟩
+  · rw [h3, hsplit, renderToksY_append]
+    simp [renderToksY]
+  · intro m a ht hpre
+    rcases ht with rfl | rfl
+    · obtain ⟨x, hx⟩ := hat hpre
+      exact ⟨x, hx.symm⟩
+    · obtain ⟨x, hx⟩ := hat hpre
+      exact ⟨x, hx.symm⟩
+  · intro m ht
+    subst ht
+    refine ⟨hat.1, ?_⟩
+    intro h1 h2
+    obtain ⟨x, hx⟩ := hat.2 h1 h2
+    exact ⟨x, hx.symm⟩
+
+/-- `pretty_text_layout_tokens` for the token sequence of a strict single-root document (what `lexStrict` returns on
+    any serialisation of it, C01): the output of the first pretty pass obeys the layout law. -/
+theorem pretty_text_layout (cfg : Cfg) (hm : cfg.mini = false) (hi : IndentWS cfg) (dt : Option Str)
+    (hdt : DtOK dt) (n : Str) (st : AStore) (sc : Bool) (kids : List FNode)
+    (hs : (FNode.elem n st sc kids).Strict) (hnw : (FNode.elem n st sc kids).NoWrapper) :
+    ∃ out toks2, format cfg (strictToks dt (.elem n st sc kids)) = .ok out ∧ lexStrict out = some toks2 ∧
+      tagStack [] toks2 = [] ∧
+      ∀ pre t post, toks2 = pre ++ t :: post →
+        out = renderToksY (styleOf cfg.kind) pre ++ renderTokY (styleOf cfg.kind) t
+                ++ renderToksY (styleOf cfg.kind) post
+        ∧ (∀ m a, t = .start m a ∨ t = .startend m a → noPre (tagStack [] pre) = true →
+            ∃ x, renderToksY (styleOf cfg.kind) pre = x ++ '\n' :: rep (tagStack [] pre).length cfg.indent)
+        ∧ (∀ m, t = .end_ m → (tagStack [] pre).head? = some m ∧
+            (isPre m = false → noPre (tagStack [] pre).tail = true →
+              ∃ x, renderToksY (styleOf cfg.kind) pre = x ++ '\n' :: rep ((tagStack [] pre).length - 1) cfg.indent)) :=
+  pretty_text_layout_tokens cfg hm hi dt hdt n st sc kids hs hnw _ (noWrapperStart_strictToks dt _ hs hnw)
+    (plain_feed_strictToks dt hdt n st sc kids hs)
+
+/-- … and so does the output of the second pass (the formatter fed the tokens the lexer reads from pass 1's output) —
+    hence, with `pretty_text_stable`, of every later pass. -/
+theorem pretty_text_layout_second_pass (cfg : Cfg) (hm : cfg.mini = false) (hi : IndentWS cfg) (dt : Option Str)
+    (hdt : DtOK dt) (n : Str) (st : AStore) (sc : Bool) (kids : List FNode)
+    (hs : (FNode.elem n st sc kids).Strict) (hnw : (FNode.elem n st sc kids).NoWrapper) :
+    ∃ out1 toks2 out2 toks3, format cfg (strictToks dt (.elem n st sc kids)) = .ok out1 ∧ lexStrict out1 = some toks2 ∧
+      format cfg (toks2.map Tok.ofToken) = .ok out2 ∧ lexStrict out2 = some toks3 ∧ tagStack [] toks3 = [] ∧
+      ∀ pre t post, toks3 = pre ++ t :: post →
+        out2 = renderToksY (styleOf cfg.kind) pre ++ renderTokY (styleOf cfg.kind) t
+                ++ renderToksY (styleOf cfg.kind) post
+        ∧ (∀ m a, t = .start m a ∨ t = .startend m a → noPre (tagStack [] pre) = true →
+            ∃ x, renderToksY (styleOf cfg.kind) pre = x ++ '\n' :: rep (tagStack [] pre).length cfg.indent)
+        ∧ (∀ m, t = .end_ m → (tagStack [] pre).head? = some m ∧
+            (isPre m = false → noPre (tagStack [] pre).tail = true →
+              ∃ x, renderToksY (styleOf cfg.kind) pre = x ++ '\n' :: rep ((tagStack [] pre).length - 1) cfg.indent)) := by
+  obtain ⟨f1, l1, w1, p1, s1, n1⟩ := pass_step cfg hi dt hdt n st sc kids hs hnw _
+    (noWrapperStart_strictToks dt _ hs hnw) (plain_feed_strictToks dt hdt n st sc kids hs)
+  obtain ⟨out2, toks3, g1, g2, g3, g4⟩ := pretty_text_layout_tokens cfg hm hi dt hdt n st sc _ s1 n1 _ w1 p1
+  exact ⟨_, _, out2, toks3, f1, l1, g1, g2, g3, g4⟩
+
+/-- **The hypothesis `NoWrapper` is needed for the layout law** (the property excludes the reserved name): in the strict
+    document `<div><xxxblank><p></p></xxxblank></div>` the element carrying the wrapper's name does not count as a level,
+    so `<p >` — two elements open — is written after one unit instead of two. -/
+theorem layout_needs_no_reserved_name :
+    okIs (format (mkCfg .pretty (.str (str "  ")) false)
+      (strictToks none (.elem (str "div") {} false [.elem (str "xxxblank") {} false [.elem (str "p") {} false []]])))
+      "\n<div >\n  <xxxblank >\n  <p >\n  </p>\n  </xxxblank>\n</div>" = true
+    ∧ (FNode.elem (str "div") {} false [.elem (str "xxxblank") {} false [.elem (str "p") {} false []]]).Strict := by
+  refine ⟨by decide, ?_⟩
+  simp only [FNode.Strict, StrictL]
+  decide
+
+/-- "ends with a line break and `d` copies of the unit", read as a statement about the line the tag is on: when the unit
+    has no line break (`IndentWS`), the text between the last line break of `before` and the tag is exactly `d` copies
+    of the unit, and there is such a line break. -/
+theorem layout_reads_as_line (cfg : Cfg) (hi : IndentWS cfg) (d : Nat) (before x : Str)
+    (h : before = x ++ '\n' :: rep d cfg.indent) : lastLine before = rep d cfg.indent ∧ '\n' ∈ before := by
+  apply lastLine_indText cfg.indent _ d before ⟨x, h.symm⟩
+  intro c hc
+  rcases hi c hc with rfl | rfl <;> decide
+
 /-!
   #### What is partial
 
-  * `pretty_stable_partial` / `mini_fixed_point_partial` (string level, not stated as theorems): `pretty³ = pretty²` and
-    `mini (mini x) = mini x` on output *text*.  Proved here: the tree-level fixed point (`reformat_tree_fixed_point`), that
-    depth and preformatted-ness of every position depend on the tree only (`formatter_tree_is_decorated`, C11), and the two
-    facts about the one piece of text that changes between passes (`squeeze_idempotent`, `indent_piece_stable`).  Missing:
-    the character-level lexer (another group's Model/Lexer) to show that the output text tokenizes back into the tree's
-    blocks with each `_indent` glued to the preceding data piece, and the position-wise induction over the token list that
-    uses the lemmas above.  The tie runs passes 1–3 of every case through model and library and the oracle checks
-    `pass 3 = pass 2`, `mini² = mini` on the real code.
-  * C12a over the output *string* (an independent `layoutOf : text → (depth, column)*`): the tree-level law is proved
-    (`indentation_law`) together with `start_tag_after_indent` / `end_tag_after_indent`; recomputing depth from the text again
-    needs the lexer.  The oracle does exactly that on the real output with the real tokenizer.
+  * The text-level theorems (`mini_output_fixed_point_text`, `pretty_text_stable`, `pretty_text_layout…`) are stated for
+    the strict sub-language the lexer bridge of C11 covers: single-root documents whose tree is `FNode.Strict` (well-formed
+    names and attribute items, text blocks that are data runs / references / comments other than the singletons `<` `&`,
+    raw-text content free of its closing expression, attribute stores re-read unchanged), doctype absent or a
+    `doctype …` declaration, reserved name absent, indent unit of spaces/tabs.  Multi-root documents (the invisible
+    wrapper; C11's `doc_reparse_multi` covers their re-parse) are not covered by the three-pass statement.  For
+    arbitrary token sequences (implicit closes, stray end tags, …) the tree-level statements above hold
+    (`indentation_law`, `reformat_tree_fixed_point`); the tie runs passes 1–3 of every case through model and library and
+    the oracles check the layout on passes 1 and 2, `pass 3 = pass 2` and `mini² = mini` on the real code.
+  * `mini² = mini` needs `Glued` (no two adjacent data blocks) — without it: the known finding below.
 -/
 
 /-- Known finding `C12-mini-dropped-markup`, the instance: two data pieces that are adjacent in the *output* because the
@@ -239,5 +460,52 @@ example : okIs (format (mkCfg .pretty (.str (str "  ")) false) sampleToks)
 example : okIs (format (mkCfg .slim (.str (str "  ")) true) sampleToks)
     "\n<ul>\n  <li>a\n    <li>b\n      <pre/>\n      <br/>\n    </li>\n  </li>\n</ul>" = true := by decide +kernel
 example : okIs (format (mkCfg .mini .dflt false) sampleToks) "<ul ><li >a<li >b<pre /><br /></li></li></ul>" = true := by decide +kernel
+
+/-! #### non-vacuity of the text-level theorems -/
+
+/-- a document with two *adjacent* data blocks (not `Glued`), nested elements, a void element, a `pre` with a nested
+    element, a reference and a `script` -/
+def stableTree : FNode :=
+  .elem (str "div") {} false
+    [.tok (.data (str "a")), .tok (.data (str " b\n")),
+     .elem (str "p") {} false [.tok (.data (str "x")), .elem (str "br") {} true []],
+     .elem (str "pre") {} false [.elem (str "span") {} false [.tok (.data (str "  y  "))]],
+     .tok (.entity (str "amp")),
+     .elem (str "script") {} false [.tok (.data (str "if (a < b) { s = 1; }"))]]
+
+set_option synthInstance.maxSize 1024 in
+theorem stableTree_strict : stableTree.Strict := by simp only [stableTree, FNode.Strict, StrictL]; decide
+theorem stableTree_noWrapper : stableTree.NoWrapper := by
+  simp only [stableTree, FNode.NoWrapper, NoWrapperL]; decide
+example : ¬ stableTree.Glued := by simp only [stableTree, FNode.Glued, GluedL, FNoAdjL, fisDataTok]; decide
+
+/-- `pretty_text_stable` applies to it (slim class, tab indent, with a doctype) … -/
+example : ∃ out1 toks2 out2 toks3 out3,
+    format (mkCfg .slim (.str (str "\t")) true) (strictToks (some (str "DOCTYPE html")) stableTree) = .ok out1 ∧
+    lexStrict out1 = some toks2 ∧ format (mkCfg .slim (.str (str "\t")) true) (toks2.map Tok.ofToken) = .ok out2 ∧
+    lexStrict out2 = some toks3 ∧ format (mkCfg .slim (.str (str "\t")) true) (toks3.map Tok.ofToken) = .ok out3 ∧
+    out3 = out2 :=
+  pretty_text_stable (mkCfg .slim (.str (str "\t")) true) rfl (by decide) _ (by decide) _ _ _ _
+    stableTree_strict stableTree_noWrapper
+
+/-- … and so does `pretty_text_layout` (pretty class, default indent) -/
+example : ∃ out toks2, format (mkCfg .pretty .dflt false) (strictToks none stableTree) = .ok out ∧
+    lexStrict out = some toks2 ∧ tagStack [] toks2 = [] :=
+  let ⟨out, toks2, h1, h2, h3, _⟩ := pretty_text_layout (mkCfg .pretty .dflt false) rfl (by decide) none trivial
+    _ _ _ _ stableTree_strict stableTree_noWrapper
+  ⟨out, toks2, h1, h2, h3⟩
+
+/-- the texts in question: pass 1, and pass 2 = pass 3 (what the model's formatter and lexer compute) -/
+example : okIs (format (mkCfg .pretty .dflt false) (strictToks (some (str "DOCTYPE html")) stableTree))
+    ("<!DOCTYPE html>\n\n<div >a b\n  <p >x\n    <br />\n  </p>\n  <pre ><span >  y  </span></pre>&amp;\n" ++
+     "  <script >if (a < b) { s = 1; }\n  </script>\n</div>") = true := by decide +kernel
+
+/-- the law at one position of that text: the tokens before `<br />` leave `div`, `p` open (depth 2), and the text
+    before it ends with a line break and 2 × 2 spaces -/
+example : tagStack [] [Token.decl (str "DOCTYPE html"), .data (str "\n\n"), .start (str "div") [],
+      .data (str "a b\n  "), .start (str "p") [], .data (str "x\n    ")] = [str "p", str "div"]
+    ∧ renderToksY TagStyle.normal [Token.decl (str "DOCTYPE html"), .data (str "\n\n"), .start (str "div") [],
+        .data (str "a b\n  "), .start (str "p") [], .data (str "x\n    ")]
+      = str "<!DOCTYPE html>\n\n<div >a b\n  <p >x" ++ '\n' :: rep 2 (str "  ") := by decide
 
 end AHP.C12
